@@ -45,7 +45,8 @@ def run(chk):
     )
     chk.trust("dict / OrderedDict preserve insertion order", "symx translation and exhaustive tables")
     chk.assume("the .pool and .phantom attributes of the input records are booleans")
-    fn = chk.fn(REL, "CVR.merge_cvrs")
+    from ..canon import inline_aliases
+    fn = inline_aliases(chk.fn(REL, "CVR.merge_cvrs"))  # canonical form: `first = od[c.id]` style aliases substituted
     where = W("CVR.merge_cvrs")
     # R1
     inits = [s for s in fn.body if isinstance(s, ast.Assign) and isinstance(s.value, (ast.Call, ast.Dict))
@@ -60,12 +61,19 @@ def run(chk):
     ok = False
     detail = {}
     merge_body = None
-    if len(l.body) == 1 and len(ifs) == 1 and norm(l.iter) == "cvr_list":
+    if ifs and l.body[0] is ifs[0] and norm(l.iter) == "cvr_list":
         i = ifs[0]
         t = norm(i.test)
         absent = t in (f"{c}.idnotin{od}", f"not{c}.idin{od}", f"{c}.idnotin{od}.keys()")
         present = t in (f"{c}.idin{od}", f"{c}.idin{od}.keys()")
-        ins, merge_body = (i.body, i.orelse) if absent else ((i.orelse, i.body) if present else (None, None))
+        rest = l.body[1:]
+        ins = None
+        if absent and i.orelse and not rest:
+            ins, merge_body = i.body, i.orelse                       # if absent: insert  else: merge
+        elif present and i.orelse and not rest:
+            ins, merge_body = i.orelse, i.body                       # if present: merge  else: insert
+        elif absent and not i.orelse and i.body and isinstance(i.body[-1], ast.Continue):
+            ins, merge_body = i.body[:-1], rest                       # if absent: insert; continue   <merge statements>
         if ins is not None:
             sts = [(tt, v, s) for tt, v, s in stores(ast.Module(body=list(ins), type_ignores=[]))]
             ok = len(sts) == 1 and norm(sts[0][0]) == f"{od}[{c}.id]" and norm(sts[0][1]) == c and len(ins) == 1
@@ -75,7 +83,8 @@ def run(chk):
                     or (isinstance(n, ast.Call) and isinstance(n.func, ast.Attribute) and n.func.attr in ("pop", "move_to_end", "popitem", "clear"))]
             ok = ok and not reins and not dels
             detail["test"] = norm(i.test)
-    esc = [n for n in walk_local(l) if isinstance(n, (ast.Break, ast.Continue, ast.Return))]
+    esc = [n for n in walk_local(l) if isinstance(n, (ast.Break, ast.Return))]
+    esc += [n for n in walk_local(l) if isinstance(n, ast.Continue) and not (ifs and ifs[0].body and n is ifs[0].body[-1])]
     chk.ob("C18.R1", where, "insert-iff-absent", ok and not esc,
            "a record enters the mapping under its id only when the id is absent; the merge branch neither re-inserts nor removes; "
            "every input record is visited", node=l, **detail)
@@ -120,12 +129,12 @@ def run(chk):
                    f"every store to .{flag} in the merge is `later.{flag} {opname} earlier.{flag}`: a boolean expression over the "
                    f".{flag} attributes only (so the flag remains a true/false value)", node=s, statement=norm(s)[:120], store_index=k)
     # R4 tally pool
-    tp_if = [s for s in merge_body if isinstance(s, ast.If) and "tally_pool" in norm(s.test)]
+    tp_if = [s for s in merge_body if "tally_pool" in norm(s)]
     ok = False
     detail = {}
-    if len(tp_if) == 1:
+    if tp_if:
         tx = Tx(env={f"@{tgt}.tally_pool": E(S(f"{tgt}.tally_pool"))})
-        tx.block([tp_if[0]])
+        tx.block(list(tp_if))
         got = tx.env.get(f"@{tgt}.tally_pool")
         for g in tx.guards:
             got = I(g, got, symx.Raise("ValueError"))
@@ -151,64 +160,113 @@ def run(chk):
     r5(chk)
 
 
-def r5(chk):
-    fn = chk.fn(REL, "CVR.from_raire")
-    where = W("CVR.from_raire")
+def raire_reader_facts(fn):
+    """Facts about CVR.from_raire on its canonical form, for the loop-store and the dict-comprehension spellings alike:
+    skip name/ok, row variable, (start column, rank expression as sympy in j), vote-dict expression, from_vote kwargs, list name."""
+    from ..canon import inline_aliases
+    f = inline_aliases(fn)
+    out = {"fn": f}
     env = {}
-    for st in fn.body:
+    for st in f.body:
         if isinstance(st, ast.Assign) and isinstance(st.targets[0], ast.Name):
             env[st.targets[0].id] = st.value
-    loops = [l for l in fn.body if isinstance(l, ast.For)]
-    ok_skip = ok_iter = ok_rank = ok_ids = False
+    out["env"] = env
+    loops = [l for l in f.body if isinstance(l, ast.For)]
+    if len(loops) != 1:
+        return out
+    l = loops[0]
+    out["loop"] = l
+    it = l.iter
+    if isinstance(it, ast.Subscript) and norm(it.value) == "raire" and isinstance(it.slice, ast.Slice) and it.slice.upper is None \
+            and it.slice.step is None and it.slice.lower is not None:
+        # skip may have been inlined (int(raire[0][0]) + 1) or kept as a name
+        lo_txt = norm(it.slice.lower)
+        names = [n.id for n in ast.walk(it.slice.lower) if isinstance(n, ast.Name) and n.id != "raire" and n.id != "int"]
+        if names and names[0] in env:
+            sk = names[0]
+            lo = Tx(env={sk: E(S("skip"))}).expr(it.slice.lower)
+            out["iter_ok"] = isinstance(lo, E) and is_zero(lo.e - (S("skip") + 1))
+            out["skip_ok"] = norm(env[sk]) == "int(raire[0][0])"
+            out["skip_name"] = sk
+        else:
+            lo = Tx().expr(it.slice.lower)
+            want = Tx().expr(ast.parse("int(raire[0][0]) + 1", mode="eval").body)
+            out["iter_ok"] = out["skip_ok"] = symx.equivalent(lo, want)[0]
+    row = norm(l.target)
+    out["row"] = row
+    # the rank assignment: loop-store form or dict comprehension
+    rank = None
+    inner = [x for x in l.body if isinstance(x, ast.For)]
+    if len(inner) == 1 and isinstance(inner[0].iter, ast.Call) and norm(inner[0].iter.func) == "range" and len(inner[0].iter.args) == 2:
+        j = norm(inner[0].target)
+        sts = [(t, v, s0) for t, v, s0 in stores(inner[0])]
+        if len(sts) == 1 and isinstance(sts[0][0], ast.Subscript) and isinstance(sts[0][0].value, ast.Name):
+            t, v, s0 = sts[0]
+            rank = dict(j=j, start=inner[0].iter.args[0], stop=norm(inner[0].iter.args[1]), key=norm(t.slice), value=v, votes=t.value.id, fresh=None)
+            loc = {norm(a.targets[0]): norm(a.value) for a in l.body if isinstance(a, ast.Assign) and isinstance(a.targets[0], ast.Name)}
+            rank["fresh"] = loc.get(t.value.id) == "{}"
+    for dc in [x for x in ast.walk(l) if isinstance(x, ast.DictComp)]:
+        if len(dc.generators) == 1 and not dc.generators[0].ifs and isinstance(dc.generators[0].iter, ast.Call) \
+                and norm(dc.generators[0].iter.func) == "range" and len(dc.generators[0].iter.args) == 2:
+            g = dc.generators[0]
+            holder = [a for a in l.body if isinstance(a, ast.Assign) and a.value is dc and isinstance(a.targets[0], ast.Name)]
+            rank = dict(j=norm(g.target), start=g.iter.args[0], stop=norm(g.iter.args[1]), key=norm(dc.key), value=dc.value,
+                        votes=holder[0].targets[0].id if holder else norm(dc), fresh=True)
+    out["rank"] = rank
+    calls = [c for c in ast.walk(l) if isinstance(c, ast.Call) and norm(c.func) in ("CVR.from_vote", "cls.from_vote")]
+    out["from_vote"] = calls[0] if len(calls) == 1 else None
+    # the list the records are collected in: the receiver of .append(<from_vote call or a name bound to it>)
+    lst = None
+    if out["from_vote"] is not None:
+        fv = out["from_vote"]
+        holders = [norm(a.targets[0]) for a in l.body if isinstance(a, ast.Assign) and a.value is fv]
+        for c in ast.walk(l):
+            if isinstance(c, ast.Call) and isinstance(c.func, ast.Attribute) and c.func.attr == "append" and len(c.args) == 1:
+                if c.args[0] is fv or norm(c.args[0]) in holders:
+                    lst = norm(c.func.value)
+    out["list"] = lst
+    return out
+
+
+def r5(chk):
+    fn0 = chk.fn(REL, "CVR.from_raire")
+    where = W("CVR.from_raire")
+    F = raire_reader_facts(fn0)
+    fn = F["fn"]
+    env = F.get("env", {})
+    l = F.get("loop")
+    ok_rank = ok_ids = False
     detail = {}
-    SK = LST = None
-    if len(loops) == 1:
-        l = loops[0]
-        it = l.iter
-        if isinstance(it, ast.Subscript) and norm(it.value) == "raire" and isinstance(it.slice, ast.Slice) and it.slice.upper is None \
-                and it.slice.step is None and it.slice.lower is not None:
-            names = [n.id for n in ast.walk(it.slice.lower) if isinstance(n, ast.Name)]
-            SK = names[0] if len(names) == 1 else None
-            if SK:
-                lo = Tx(env={SK: E(S("skip"))}).expr(it.slice.lower)
-                ok_iter = isinstance(lo, E) and is_zero(lo.e - (S("skip") + 1))
-                ok_skip = SK in env and norm(env[SK]) == "int(raire[0][0])"
-        row = norm(l.target)
-        inner = [x for x in l.body if isinstance(x, ast.For)]
-        VOT = None
-        if len(inner) == 1 and isinstance(inner[0].iter, ast.Call) and norm(inner[0].iter.func) == "range" and len(inner[0].iter.args) == 2:
-            j = norm(inner[0].target)
-            start = Tx().expr(inner[0].iter.args[0])
-            stop = norm(inner[0].iter.args[1])
-            sts = [(t, v, s) for t, v, s in stores(inner[0])]
-            if len(sts) == 1 and isinstance(start, E) and stop == f"len({row})" and isinstance(sts[0][0], ast.Subscript) \
-                    and isinstance(sts[0][0].value, ast.Name):
-                t, v, s = sts[0]
-                VOT = t.value.id
-                rank = Tx(env={j: E(S("j"))}).expr(v)
-                detail = dict(start=sp.sstr(start.e), rank=norm(v), store=norm(t))
-                # the k-th listed candidate (k = j - start + 1) gets rank k; candidates start at column 2
-                ok_rank = isinstance(rank, E) and is_zero(rank.e - (S("j") - start.e + 1)) and start.e == 2 \
-                    and norm(t.slice) in (f"str({row}[{j}])", f"{row}[{j}]")
-        calls = [c for c in ast.walk(l) if isinstance(c, ast.Call) and norm(c.func) in ("CVR.from_vote", "cls.from_vote")]
-        if len(calls) == 1 and calls[0].args:
-            kw = {k.arg: norm(k.value) for k in calls[0].keywords}
-            loc = {norm(s.targets[0]): norm(s.value) for s in l.body if isinstance(s, ast.Assign) and isinstance(s.targets[0], ast.Name)}
-            ok_ids = loc.get(kw.get("contest_id", ""), kw.get("contest_id")) == f"{row}[0]" and loc.get(kw.get("id", ""), kw.get("id")) == f"{row}[1]" \
-                and norm(calls[0].args[0]) == VOT and loc.get(VOT) == "{}" and kw.get("phantom") == "phantom"
-            # the records are collected in the list that is merged and returned
-            ap = [c for c in ast.walk(l) if isinstance(c, ast.Call) and isinstance(c.func, ast.Attribute) and c.func.attr == "append" and calls[0] in c.args]
-            LST = norm(ap[0].func.value) if len(ap) == 1 else None
-    chk.ob("C18.R5", where, "header-skipped", ok_skip and ok_iter,
+    rk = F.get("rank")
+    row = F.get("row")
+    if rk is not None:
+        start = Tx().expr(rk["start"])
+        rank = Tx(env={rk["j"]: E(S("j"))}).expr(rk["value"])
+        detail = dict(start=sp.sstr(start.e) if isinstance(start, E) else None, rank=norm(rk["value"]), key=rk["key"])
+        # the k-th listed candidate (k = j - start + 1) gets rank k; candidates start at column 2
+        ok_rank = isinstance(rank, E) and isinstance(start, E) and is_zero(rank.e - (S("j") - start.e + 1)) and start.e == 2 \
+            and rk["stop"] == f"len({row})" and rk["key"] in (f"str({row}[{rk['j']}])", f"{row}[{rk['j']}]")
+    fv = F.get("from_vote")
+    if fv is not None and fv.args and rk is not None:
+        kw = {k.arg: norm(k.value) for k in fv.keywords}
+        ok_ids = kw.get("contest_id") == f"{row}[0]" and kw.get("id") == f"{row}[1]" and norm(fv.args[0]) == rk["votes"] \
+            and bool(rk["fresh"]) and kw.get("phantom") == "phantom"
+    chk.ob("C18.R5", where, "header-skipped", bool(F.get("skip_ok")) and bool(F.get("iter_ok")),
            "the declared number of contest lines plus the count line are skipped: rows raire[skip+1:] with skip = int(raire[0][0])",
-           node=loops[0] if loops else fn)
+           node=l or fn)
     chk.ob("C18.R5", where, "rank-k-for-kth-listed", ok_rank,
-           "the candidate in column j >= 2 gets rank j - 1: the k-th listed candidate gets rank k", node=loops[0] if loops else fn, **detail)
+           "the candidate in column j >= 2 gets rank j - 1: the k-th listed candidate gets rank k", node=l or fn, **detail)
     chk.ob("C18.R5", where, "ids-from-columns", ok_ids,
-           "contest id = column 0, card id = column 1, a fresh vote dict per row", node=loops[0] if loops else fn, strength="N")
+           "contest id = column 0, card id = column 1, a fresh vote dict per row", node=l or fn, strength="N")
     rets = [r for r in walk_local(fn) if isinstance(r, ast.Return)]
-    ok = len(rets) == 1 and isinstance(rets[0].value, ast.Tuple) and LST is not None and \
-        norm(rets[0].value.elts[0]) in (f"CVR.merge_cvrs({LST})", f"cls.merge_cvrs({LST})") and LST in env and norm(env[LST]) == "[]"
+    LST = F.get("list")
+    ok = False
+    if len(rets) == 1 and isinstance(rets[0].value, ast.Tuple) and LST is not None:
+        first = rets[0].value.elts[0]
+        txt = norm(first)
+        if isinstance(first, ast.Name) and first.id in env:
+            txt = norm(env[first.id])
+        ok = txt in (f"CVR.merge_cvrs({LST})", f"cls.merge_cvrs({LST})") and LST in env and norm(env[LST]) == "[]"
     chk.ob("C18.R5", where, "returns-merged", ok, "the reader returns the merged list (one record per card id)", node=rets[0] if rets else fn)
     ff = chk.fn(REL, "CVR.from_raire_file")
     calls = [c for c in ast.walk(ff) if isinstance(c, ast.Call) and norm(c.func) in ("CVR.from_raire", "cls.from_raire")]
@@ -216,6 +274,8 @@ def r5(chk):
     if len(calls) == 1 and calls[0].args and isinstance(calls[0].args[0], ast.Name):
         rows_name = calls[0].args[0].id
         ap = [c for c in ast.walk(ff) if isinstance(c, ast.Call) and norm(c.func) == f"{rows_name}.append"]
-        ok = len(ap) == 1 and any(isinstance(a, ast.For) and "csv.reader" in norm(ff) for a in ast.walk(ff))
+        lc = [a for a in ast.walk(ff) if isinstance(a, ast.Assign) and norm(a.targets[0]) == rows_name and isinstance(a.value, (ast.ListComp, ast.Call))
+              and ("csv.reader" in norm(ff))]
+        ok = (len(ap) == 1 or bool(lc)) and "csv.reader" in norm(ff)
     chk.ob("C18.R5", W("CVR.from_raire_file"), "file-reader-delegates", ok,
            "the file reader hands every row, split by csv.reader, to from_raire", node=ff, strength="N")
